@@ -77,7 +77,8 @@ DescWhy(d, x) ==
 \* ---- the program's own controls must be what the description shows (names in order, defaults)
 ProgCtlWhy(prog, x) ==
     IF \E i \in 1..Len(prog.ctl) : ~\E j \in 1..Len(x.ctl) :
-            x.ctl[j].n = prog.ctl[i].n /\ x.ctl[j].d[1].x = 1 /\ x.ctl[j].d[1].v = prog.ctl[i].d
+            x.ctl[j].n = prog.ctl[i].n /\ Len(x.ctl[j].d) = CtlW(prog.ctl[i])
+            /\ \A ch \in 1..Len(x.ctl[j].d) : x.ctl[j].d[ch].x = 1 /\ x.ctl[j].d[ch].v = CtlDef(prog.ctl[i], ch - 1)
             /\ x.ctl[j].r = RateName(CtlRate(prog.ctl[i].r))
     THEN "desc-program-control" ELSE "ok"
 
